@@ -406,18 +406,26 @@ def _ha_post(ctx):
     c1o, c2o = cw_value(ctx.old, p0, a[0], a[1], a[2], m0), cw_value(ctx.old, p1, b[0], b[1], b[2], m1)
     c1n, c2n = cw_value(ctx.old, p1, a[0], a[1], a[2], m0), cw_value(ctx.old, p0, b[0], b[1], b[2], m1)
     rg = None
-    # the generator object travels with the state; its last draw is "the drawn number"
-    for v in ctx.st.env.values():
-        if isinstance(v, RGen):
-            rg = v
-    u = rg.draws[-1][1]
+    if ctx.summary:
+        # at a call site the callee's single draw happens "inside" the call
+        rg = ctx.a("rgen")
+        u = fresh("u", REAL)
+        ctx.st.assume(u >= 0, u < 1)
+        rg.draws.append(("random", u))
+    else:
+        # the generator object travels with the state; its last draw is "the drawn number"
+        for v in ctx.st.env.values():
+            if isinstance(v, RGen):
+                rg = v
+        u = rg.draws[-1][1]
     acc, status = ctx.result
     acc_t = acc if z3.is_expr(acc) else z3.BoolVal(acc)
     ratio_rule = z3.If(z3.Or(c1o == 0, c2o == 0), z3.BoolVal(True), u * (c1o * c2o) < c1n * c2n)
-    return [
+    frame = [("input_untouched", z3.And(unchanged(ctx, sys_fields()), unchanged_below(ctx, ["Path.pp", "Path.pp#len"] + PATH_SCALARS, ctx.old.alloc)))]
+    return frame + [
         ("accept_iff_u_below_weight_ratio", z3.Implies(z3.And(c1o >= 0, c2o >= 0), acc_t == ratio_rule)),
         ("status_ACC_iff_accepted", unwrap(status, "str") == z3.If(acc_t, S("ACC"), S("HAS"))),
-        ("exactly_one_draw", z3.BoolVal(len(rg.draws) == 1)),
+        ("exactly_one_draw", z3.BoolVal(ctx.summary or len(rg.draws) == 1)),
     ]
 
 
@@ -425,4 +433,5 @@ reg(Contract(
     "high_acc_swap", src=(TIS_PY, "high_acc_swap"),
     cases=[Case("sym", _ha_make)], requires=_ha_req, ensures=[("ha", _ha_post)],
     canaries=[("always_accepts", lambda c: c.result[0] if z3.is_expr(c.result[0]) else z3.BoolVal(c.result[0]))],
+    modifies=["Path.pp", "Path.pp#len"] + PATH_SCALARS, allocates=True, result=("tuple", "bool", "str"),
 ))
